@@ -200,7 +200,7 @@ def oracle(c, io):
         return None if io == 'EXN:TypeError' else '%s(%s) gives %s, TypeError expected' % (op, c['value']['v'], io)
     d = resolved_default(c.get('stdin'))
     if op == 'safe_decode':
-        v = val(c['value']); errors = c.get('errors') or 'strict'
+        v = val(c['value']); errors = c['errors'] if 'errors' in c else 'strict'
         if isinstance(v, str):
             return None if io == 's:' + v else 'safe_decode of a str gives %r' % io
         inc = c.get('incoming') or d
@@ -214,7 +214,7 @@ def oracle(c, io):
         if not io.startswith('EXN:'): return 'safe_decode(%r, %r, %r) gives %r although neither %s nor UTF-8 decodes it' % (v, inc, errors, io, inc)
         return None
     if op == 'safe_encode':
-        v = val(c['value']); errors = c.get('errors') or 'strict'
+        v = val(c['value']); errors = c['errors'] if 'errors' in c else 'strict'
         enc = c['encoding'] if c.get('encoding') is not None else 'utf-8'
         if isinstance(v, str):
             if io.startswith('s:') or io.startswith('o:'): return 'safe_encode of a str returns a %s' % io[:1]
@@ -513,7 +513,7 @@ def boundary_cases():
 
 def gen_cases(rng, tier):
     yield from boundary_cases()
-    n = 7000 if tier == 'quick' else 200000
+    n = 7000 if tier == 'quick' else 600000
     for _ in range(n):
         yield one_case(rng)
     # the whole NFKD table, 512 code points per case (surrogates excluded), and every alias CPython knows
